@@ -7,6 +7,7 @@ import (
 	"math/rand"
 	"net"
 	"net/http"
+	"net/url"
 	"os"
 	"sync"
 	"time"
@@ -246,6 +247,13 @@ func (c *realClient) Do(req *http.Request) (*http.Response, error) {
 	call := simhttp.CallOf(req.Context())
 	if call != nil {
 		call.EditURL(req)
+		if call.K.DoErr != nil {
+			// nothing answers at that address
+			if req.Body != nil {
+				_ = req.Body.Close()
+			}
+			return nil, &url.Error{Op: "Post", URL: req.URL.String(), Err: call.K.DoErr}
+		}
 	}
 	cl := c.n.h1
 	if c.h2 {
